@@ -572,6 +572,7 @@ def rtc_zoo(case_names, tier):
             if dense.dtype == torch.float32 and not f32_only and kind not in ("contig", "slice"):
                 continue
             s = zlib.crc32((label + kind).encode()) % (2**31)
+            torch.manual_seed(s)  # library-internal random draws (Lanczos start vectors, probes, samples): reproducible
             # a fresh operator per layout (caches, in-place flags)
             try:
                 dtn = label.split("|")[1]
@@ -785,6 +786,7 @@ def rtc_layouts(names, tier):
                     pass
                 label = f"local_{name}|{str(dt)[6:]}|b={b}|n={n}"
                 g = zoo.gen(zlib.crc32((label + kind).encode()) % (2**31))
+                torch.manual_seed(zlib.crc32((label + kind).encode()) % (2**31))
                 W = Watch()
                 try:
                     op, dense, psd = cases[name](g, dt, tuple(b), n, W, kind)
@@ -813,6 +815,7 @@ def rtc_shared(tier):
     for dt, n, b in itertools.product((torch.float64, torch.float32), (1, 3, 5) if tier == "quick" else (1, 2, 3, 5, 6), ((), (2,))):
         label = f"shared|{str(dt)[6:]}|b={b}|n={n}"
         g = zoo.gen(zlib.crc32(label.encode()) % (2**31))
+        torch.manual_seed(zlib.crc32(label.encode()) % (2**31))
         W = Watch()
         T = W.add("T", _spd(g, b, n, dt))
         col = T[..., 0, :]  # a view: first row as a Toeplitz column
@@ -883,6 +886,7 @@ def rtc_utils(part, tier):
         for dt, n, b, kind in itertools.product(dts_, ns_, bs_, LAYOUTS):
             label = f"{str(dt)[6:]}|b={b}|n={n}|lay={kind}"
             g = zoo.gen(zlib.crc32((group + label).encode()) % (2**31))
+            torch.manual_seed(zlib.crc32((group + label).encode()) % (2**31))
             W = Watch()
             try:
                 fn = build(W, g, dt, tuple(b), n, kind)
